@@ -284,6 +284,21 @@ Section Calls.
       + unfold hid; cbn [fills fbs depth]. rewrite Y1, Y2, Y3. reflexivity.
   Qed.
 
+
+  Lemma REL_iter_exec_nn (body body' : rt -> res) tag na no fa fo s s' :
+    vsim s s' ->
+    (forall a b, vsim a b -> hid a = hid s -> hid b = hid s' -> REL (hid s) (hid s') (body a) (body' b)) ->
+    REL (hid s) (hid s') (iter_exec_nn pknown psem body tag na no fa fo s)
+                         (iter_exec_nn pknown psem body' tag na no fa fo s').
+  Proof.
+    intros V Hb. pose proof (REL_iter_exec body body' tag na no fa fo s s' V Hb) as H.
+    pose proof (fillctx_vsim _ _ V) as Efc. pose proof V as (E1 & E2 & E3 & E4).
+    unfold iter_exec_nn, need. rewrite Efc, <- E1.
+    destruct (na <=? length (stk s)); auto.
+    destruct (psem ITER_N _ _) as [[|[n|] [|]]|]; auto.
+    destruct (n <? 0)%Z; auto. exact I.
+  Qed.
+
   Ltac fin_ok :=
     first [ exact I
           | apply REL_ok; [repeat split; cbn [stk und fills fbs depth]; auto; congruence | auto; try reflexivity; try assumption | auto; try reflexivity; try assumption]
@@ -393,6 +408,12 @@ Section Calls.
                 apply REL_iter_exec; auto; intros a b Vab Ha Hb; rewrite <- Ha, <- Hb;
                 apply REL_without_fill; auto; intros a1 b1 V1 N1 _ _ _;
                 apply (IH_use _ _ IH); auto).
+      all: try (destruct (negb (sig_eqb (sig_inverse sg1) sg2)); [exact I|];
+                match goal with |- REL _ _ (match iter_ao ?mk ?sg with _ => _ end) _ =>
+                  destruct (iter_ao mk sg) as [[na no]|]; [|exact I] end;
+                apply REL_iter_exec_nn; auto; intros a b Vab Ha Hb; rewrite <- Ha, <- Hb;
+                apply REL_without_fill; auto; intros a1 b1 V1 N1 _ _ _;
+                apply (IH_use _ _ IH); auto).
       all: try (norm E1 E2; rewrite ?Efc; auto_rel IH Hn; fail).
       (* fill *)
       destruct (so sg1 =? 0); [exact I|]. auto_rel IH Hn.
@@ -420,9 +441,9 @@ Section Calls.
           rewrite <- E4. symmetry. apply Hn. reflexivity.
         * intros _. reflexivity.
       + intros a b Vab Ha Hb. apply leave_frame_ok; auto.
+    - (* CallGlobal *) cbn [Exec.exec]. rewrite Efc. norm E1 E2. brk; fin_ok.
     - exact I.
-    - exact I.
-    - exact I.
+    - (* BindGlobal *) cbn [Exec.exec]. norm E1 E2. brk; fin_ok.
     - (* Arr *)
       cbn [Exec.exec]. norm E1 E2. auto_rel IH Hn.
     - (* Unpack *) cbn [Exec.exec]. norm E1 E2. brk; fin_ok.
